@@ -968,6 +968,10 @@ func (p *queryPlan) projectAndGroupBy() error {
 		}
 	})
 	// The table needs to be group reduced.
+	if p.tbl.NumRows() == 0 {
+		// There is nothing to reduce and the result is empty.
+		return nil
+	}
 	// Project only binding involved in the group operation.
 	tmpBindings := []string{}
 	mapBindings := make(map[string]bool)
